@@ -68,12 +68,41 @@ def generate():
         if isinstance(n, ast.Assign) and isinstance(n.value, ast.Call) and ast.unparse(n.value.func) == '_update_existing_keys':
             tgt = ast.unparse(n.targets[0])
             dict_calls[tgt] = ast.unparse(n.value.args[0]) + ('|kwargs' if any(kw.arg is None and ast.unparse(kw.value) == 'kwargs' for kw in n.value.keywords) else '')
+    # ... read off the resolved RasterFuse.process call when there is one: its three dictionary arguments, whatever carries them there
+    try:
+        from translate.resolve import Flow as _Flow
+        _mod = ast.parse(inspect.getsource(hcli))
+        _fn = next(n for n in _mod.body if isinstance(n, ast.FunctionDef) and n.name == fn.name)
+        _fl = _Flow(_fn, module=_mod)
+        _proc = _fl.calls(lambda c: ast.unparse(c.func).endswith('.process'))
+        if len(_proc) == 1:
+            got = {}
+            for kw_ in _proc[0].keywords:
+                v_ = kw_.value
+                if kw_.arg in ('block_config', 'model_config', 'out_profile') and isinstance(v_, ast.Call) and ast.unparse(v_.func) == '_update_existing_keys' and v_.args:
+                    got[kw_.arg] = ast.unparse(v_.args[0]) + ('|kwargs' if any(k_.arg is None and ast.unparse(k_.value) == 'kwargs' for k_ in v_.keywords) else '')
+            if len(got) == 3 or any(kw_.arg in ('block_config', 'model_config', 'out_profile') for kw_ in _proc[0].keywords):
+                dict_calls = got        # (a dictionary that reaches the call by another route than the defaults + kwargs is not listed)
+    except Exception:       # noqa: B902 - the plain reading above stands
+        pass
     out.append(f'Definition fuse_dicts_from_kwargs : list (string * string) := [{"; ".join(chr(34) + a + chr(34) + ", " + chr(34) + b + chr(34) for a, b in ((k2, v) for k2, v in sorted(dict_calls.items())) )}]%string.'.replace('["', '[("').replace('"; "', '"); ("').replace('"]%', '")]%') if dict_calls else 'Definition fuse_dicts_from_kwargs : list (string * string) := [].')
     # process(corr_filename, Model(model), kernel_shape, ...): kernel_shape passed through unchanged as the 3rd positional argument
     kernel_direct = False
     for n in ast.walk(fn):
         if isinstance(n, ast.Call) and ast.unparse(n.func).endswith('.process') and len(n.args) >= 3:
             kernel_direct = ast.unparse(n.args[2]) == 'kernel_shape'
+    if not kernel_direct:
+        # ... or in a helper function of the module that the callback hands its kernel_shape to, under whatever name
+        mod = ast.parse(inspect.getsource(hcli))
+        helpers = {n.name: n for n in mod.body if isinstance(n, ast.FunctionDef)}
+        for c in [n for n in ast.walk(fn) if isinstance(n, ast.Call) and isinstance(n.func, ast.Name) and n.func.id in helpers]:
+            h = helpers[c.func.id]
+            hp = [a.arg for a in h.args.posonlyargs + h.args.args]
+            passed = {hp[i]: ast.unparse(a) for i, a in enumerate(c.args) if i < len(hp)}
+            passed.update({k.arg: ast.unparse(k.value) for k in c.keywords if k.arg})
+            for n in ast.walk(h):
+                if isinstance(n, ast.Call) and ast.unparse(n.func).endswith('.process') and len(n.args) >= 3 and isinstance(n.args[2], ast.Name):
+                    kernel_direct = kernel_direct or passed.get(n.args[2].id) == 'kernel_shape'
     out.append(f'Definition kernel_passed_unchanged : bool := {"true" if kernel_direct else "false"}.')
     # FuseCommand (invoke or a helper it calls): unknown configuration keys are rejected, DEFAULT-sourced values are overridden by the file, and
     # EVERY entry of the file takes part.  Decided on path conditions (translate/resolve.py), not on spelling: the statement that stores an
